@@ -23,6 +23,7 @@ pub mod drv;
 
 #[cfg(verif_selftest)] pub mod selftest;
 
-#[cfg(verif_c01)] pub mod c01;
+#[cfg(any(verif_c01, verif_c02))] pub mod c01;
+#[cfg(verif_c02)] pub mod c02;
 #[cfg(verif_c14)] pub mod c14;
 
